@@ -196,6 +196,11 @@ def _to_str(s, enc=locale.getpreferredencoding()):'''}]},
      "edits": [{"file": "cnvlib/cnary.py",
                 "old": "        ignore = tuple(ignore) + params.ANTITARGET_ALIASES\n",
                 "new": "        ignore += params.ANTITARGET_ALIASES\n"}]},
+    {"id": "c10-cmd-reference-overwrites", "property": "C10", "expect": ["W1"],
+     "why": "cnvkit.py reference -o PATH no longer moves an existing PATH out of the way",
+     "edits": [{"file": "cnvlib/commands.py",
+                "old": "    core.ensure_path(ref_fname)\n",
+                "new": "    os.makedirs(os.path.dirname(os.path.abspath(ref_fname)), exist_ok=True)\n"}]},
     {"id": "c10-shortname-tie", "property": "C10", "expect": ["R2"],
      "why": "revert of repair 9d8144c",
      "edits": [{"file": "cnvlib/target.py",
